@@ -128,10 +128,21 @@ def diffEqs (rxns : List (Name × Rxn)) : List (Name × List (Name × Coef)) :=
 
 def dName (v : Name) : Name := "d" ++ v ++ "dt"
 
+def noIA (m : List (Name × Val)) : Bool :=
+  m.all fun kv => match kv.2 with | .plain _ => true | .ia _ => false
+
+/-- the parameters written as constants: `cache.all_parameter_values` without the derived parameters, i.e. the
+    plain parameters and, with the value the model resolved for them, those defined by an initial assignment
+    (after `fix: generated model code assigns parameters that are defined by an initial assignment`) -/
+def emittedPars (c : Content) (cache : Cache) : List (Name × Rat) :=
+  cache.allPars.filter fun kv => !(omKeys c.derived).contains kv.1
+
 def genModel (bad : List Name) (c : Content) (L : Lang) (free : List Name) : Except Err SLP := do
-  let cache ← createCache c                         -- get_initial_conditions / get_parameter_values
+  let cache ← createCache c                         -- get_initial_conditions / _create_cache
   let variables := omKeys cache.init
-  let parameters ← popAll cache.basePars free
+  -- resolved values are only valid for the model's own parameter values
+  if !free.isEmpty && !noIA c.pars then throw (.other "NotImplementedError")
+  let parameters ← popAll (emittedPars c cache) free
   let body ← emitBody bad c cache.order
   let de := diffEqs c.rxns
   let T := templateOf L
@@ -165,9 +176,6 @@ def resEq : Except Err (List Rat) → Except Err (List Rat) → Bool
 
 /-! ### hypotheses of the partial theorem (all decidable) -/
 
-def noIA (m : List (Name × Val)) : Bool :=
-  m.all fun kv => match kv.2 with | .plain _ => true | .ia _ => false
-
 def numCoefs (c : Content) : Bool :=
   c.rxns.all fun kv => kv.2.stoich.all fun vc => match vc.2 with | .num _ => true | .dyn _ => false
 
@@ -189,11 +197,11 @@ def wellNamed (c : Content) : Bool :=
             ++ (omKeys c.vars).map dName))
   && c.rxns.all fun kv => nodupB (omKeys kv.2.stoich)
 
-/-- the decidable hypothesis of `C07_equiv_partial`: no surrogates / data, plain parameters (F-C07-5; variables
-    may be initial assignments), numeric coefficients (a limit of the proof), well-formed names, every variable
+/-- the decidable hypothesis of `C07_equiv_partial`: no surrogates / data (variables and parameters may be
+    initial assignments), numeric coefficients (a limit of the proof), well-formed names, every variable
     has an equation and only variables do (F-C07-3), at least one variable -/
 def okC (c : Content) : Bool :=
-  c.surs.isEmpty && c.data.isEmpty && noIA c.pars && numCoefs c && wellNamed c
+  c.surs.isEmpty && c.data.isEmpty && numCoefs c && wellNamed c
     && allVarsHaveEq c && stoichOnVars c && !c.vars.isEmpty
 
 /-- the requested free parameters are distinct plain parameters and one value is supplied for each -/
